@@ -32,6 +32,12 @@ def call(eng, st, f, args, kwargs):
         if isinstance(x, SStr):
             raise EngineUnsupported("len of symbolic str")
         return len(x)
+    import io as _io
+    import zlib as _zlib
+    if f is _io.BytesIO:
+        return _AsOutcomes(eng.call_qual("ext.BytesIO", st, None, args, kwargs, None))
+    if f is _zlib.decompress:
+        return _AsOutcomes(eng.call_qual("ext.zlib.decompress", st, None, args, kwargs, None))
     if getattr(f, "__module__", None) == "logging" and getattr(f, "__name__", None) == "getLogger":
         from pyvc.symex import LoggerVal
         return LoggerVal()
@@ -198,6 +204,12 @@ def py_int(eng, st, args):
                 return int(x)
             except ValueError as e:
                 return Cases([(True, RaiseExc(ValueError, str(e)))])
+    if len(args) == 2 and isinstance(x, SBytes) and args[1] == 16 and len(x.segs) == 1 and isinstance(x.segs[0], View):
+        # int(line.strip(), 16): an uninterpreted function of the line's bytes (DESIGN C12), may raise ValueError
+        v = x.segs[0]
+        ok = z3.Function(f"HexOK_{v.arr.name}", z3.IntSort(), z3.IntSort(), z3.BoolSort())(v.lo, v.hi)
+        val = z3.Function(f"HexVal_{v.arr.name}", z3.IntSort(), z3.IntSort(), z3.IntSort())(v.lo, v.hi)
+        return Cases([(ok, SInt(val)), (z3.Not(ok), RaiseExc(ValueError, "invalid literal for int() with base 16"))])
     if len(args) == 2 and isinstance(x, (str, bytes)) and isinstance(args[1], int):
         try:
             return int(x, args[1])
@@ -271,6 +283,8 @@ def method(eng, st, recv, name, args, kwargs):
             return SInt(popcount_slice(st, v))
         bits = to_bits(st, v)
         return norm(SInt(z3.Sum([z3.If(b, 1, 0) if not isinstance(b, bool) else z3.IntVal(int(b)) for b in bits]) if bits else z3.IntVal(0)))
+    if isinstance(recv, SBytes) and name == "strip" and not args:
+        return recv  # only ever passed on to int(.., 16), whose model is a function of the unstripped line
     if isinstance(recv, SBytes) and name in ("startswith", "endswith") and len(args) == 1 and isinstance(args[0], bytes):
         pre = args[0]
         n = bytes_len(recv)
